@@ -264,6 +264,26 @@ def run_history(ctx, text, hist, reps, case):
                 ctx.violation("recompiled-query-behaves-differently", case, {"text": text, "got": repr(got2)[:300], "ref": repr(refs[i])[:300]})
                 return
     ctx.count("evaluations_in_histories", len(order))
+    # the same document object under different contexts, consecutively; then updated in place by the caller
+    d0 = impl.fresh(hist[0][0])
+    contexts = [ex for _, ex in hist] + [gen.CTX_DEFAULT, None, {"k": "a", "list": [3], "o": {}, "s": "", "names": []}]
+    for j, ex in enumerate(contexts):
+        kw = {"filter_context": impl.fresh(ex)} if ex is not None else {}
+        got = outcome(lambda: records(p.finditer(d0, **kw)))
+        want = solo(text, d0, ex)
+        ctx.count("same_document_other_context_evaluations")
+        if got != want:
+            ctx.violation("result-depends-on-earlier-context-for-the-same-document", case, {"text": text, "step": j, "got": repr(got)[:300], "solo_cache_off": repr(want)[:300]})
+            return
+    if mutate_in_place(r, d0):
+        ex = hist[0][1]
+        kw = {"filter_context": impl.fresh(ex)} if ex is not None else {}
+        got = outcome(lambda: records(p.finditer(d0, **kw)))
+        want = solo(text, d0, ex)
+        ctx.count("evaluations_after_in_place_update")
+        if got != want:
+            ctx.violation("result-ignores-in-place-update-of-the-document", case, {"text": text, "got": repr(got)[:300], "solo_cache_off": repr(want)[:300]})
+            return
     for (sd, sx), (_d, _ex) in zip(snaps, docs):
         ch = sd.changed() + (sx.changed() if sx is not None else [])
         if ch:
@@ -274,6 +294,24 @@ def run_history(ctx, text, hist, reps, case):
         return
     if len(ctx.samples) < 3 or r.random() < 0.01:
         ctx.sample({"text": text, "history_len": len(hist), "uses": len(order), "matches_per_doc": [len(x[1]) if x[0] == "ok" else x[1] for x in refs]})
+
+
+def mutate_in_place(r, doc):
+    """The caller updates its own document between two evaluations."""
+    conts = [c for _, c in __import__("rt.jsonval", fromlist=["containers"]).containers(doc)]
+    r.shuffle(conts)
+    for c in conts:
+        if isinstance(c, dict) and c:
+            k = r.choice(list(c))
+            c[k] = r.choice([2, "a", "ab", None, 3, "v1", [2], {"k": 2}])
+            c["k"] = r.choice([2, 3, "a"])
+            return True
+        if isinstance(c, list):
+            c.append(r.choice([2, "a", {"k": 2, "v": 2}, "xaby"]))
+            if len(c) > 1:
+                c[0] = r.choice([2, "a", None])
+            return True
+    return False
 
 
 def schedules(r, lens, limit=60):
